@@ -75,6 +75,19 @@ chk("C18","model_checking",
     "Bounded by the listed alphabets; only the encodings the statement names (text type 1, binary year, JPEG type 13).",
     "exhaustive enumeration of input shapes against an independent reference encoder, on the real reader","§3 C18")
 
+chk("C04","model_checking",
+    "For all 48 box codecs (plus the esds descriptors) the shape space is enumerated (version 0/1, every subset of the flag bits that gate fields - tfhd 2^5, trun 2^6 -, every presence combination of optional children, list lengths 0..2/3 and the 5-bit/8-bit count limits of avcC) and crossed with value assignments: all-zero, all-ones at wire width, a fingerprint with distinct non-palindromic bytes per field, and one one-hot assignment per field. Each value is encoded (count returned = box_size() = bytes written = header size field; header code = the box's own), decoded with 0, 1 and 9 trailing sibling bytes (equal value, stream exactly at the box end), and the reference encoding (32- and 64-bit header) is pushed through decode -> encode -> decode (fixpoint).",
+    "Bounded by list lengths and the value alphabet (not arbitrary field values). 'Representable' is made explicit per box in the generator. Boxes over 4 GiB are only covered at header level (C05).",
+    "exhaustive enumeration of box shapes x value assignments on the real codecs (round-trip and fixpoint oracles)","§3 C04")
+chk("C05","model_checking",
+    "Same shape x value space as C04; the library's bytes must equal the bytes of an independent reference encoder written from the standards (reserved positions masked, noted), the reference bytes must decode to the same field values, also with a 64-bit size header and with esds descriptor lengths padded to 2-4 bytes; every value of the first two AudioSpecificConfig bytes (x a third/fifth/sixth byte alphabet) is decoded by the library and compared with a reference bit reader; box header size forms are checked around 2^32.",
+    "Trusted: the hand-written reference encoder (REFSPEC.md). Child order inside containers follows the library's (order carries no meaning). One known finding (escaped object type + explicit frequency, pinned by the repository's own test) is listed by predicate.",
+    "exhaustive enumeration of box shapes x value assignments against an independent reference encoder/decoder; complete sweeps of packed bytes","§3 C05")
+chk("C13","model_checking",
+    "Boundary-value histories that land the media-data size, the first/last chunk offset (by 4.3 GB of volume through a sparse stream, and by a non-zero stream origin) and the summed durations (media, and movie timescale with ratios 1, 2, 1/2) at 2^32-2 .. 2^32+2 are muxed by the real writer, validated by the independent parser (C02 oracle incl. 64-bit forms where a value needs them) and read back sample by sample through the real reader.",
+    "Volume cases use constant-valued large samples; AVC only in quick, all five kinds in thorough. Boxes other than mdat above 4 GiB are unreachable through the muxer.",
+    "boundary-value enumeration of muxing histories over a sparse >4 GiB stream on the real muxer+reader, judged by reference model and independent validator","§3 C13")
+
 NA={}
 m={"version":1,
    "setup_cmd":"cd harness && CARGO_NET_OFFLINE=true cargo build --offline --release && CARGO_NET_OFFLINE=true cargo build --offline --profile wrapping",
